@@ -107,6 +107,8 @@ class Tree:
             p = e.get("path") or ""
             if p.startswith(SK):
                 return p[len(SK):]
+            if p.startswith(BINMOD):
+                return ("binconst", p[len(BINMOD):] == "Positive")
             if "local" in e:
                 nm = e["local"]
                 if nm in self.state_locals and not (self.dom == "length" and isinstance(self.env.get(nm), int)):
@@ -131,6 +133,9 @@ class Tree:
         if k == "binary":
             a, b = self.value(e["a"]), self.value(e["b"])
             op = e["op"]
+            # `bm == BinMod::Positive`: a sign compared with a sign
+            a = self.signs[a[1]] if isinstance(a, tuple) and a and a[0] == "bin" else a[1] if isinstance(a, tuple) and a and a[0] == "binconst" else a
+            b = self.signs[b[1]] if isinstance(b, tuple) and b and b[0] == "bin" else b[1] if isinstance(b, tuple) and b and b[0] == "binconst" else b
             if op in ("Eq", "Ne"):
                 return (a == b) == (op == "Eq")
             if op in ("Lt", "Le", "Gt", "Ge") and isinstance(a, int) and isinstance(b, int):
@@ -609,9 +614,8 @@ def sup1(ctx):
         short = path.rsplit("::", 1)[-1]
         slots = _binmod_slot_matches(b)
         if set(slots) != {0, 1}:
-            if has_alpha:
-                raise AnchorMissing("%s: the two `if let Some(_) = xs[k]` / match BinMod blocks were not recognised (%s)" % (path, sorted(slots)))
-            slots = {0: {"ln": b.line}, 1: {"ln": b.line}}
+            # the blocks only locate the report; the tables below are read by evaluation whatever form the code has
+            slots = {0: slots.get(0, {"ln": b.line}), 1: slots.get(1, {"ln": b.line})}
         for k in (0, 1):
             for sign in (True, False):
                 signs = [None, None]
@@ -668,15 +672,24 @@ def sup1(ctx):
 
 def _accepts_alpha(b, t, k, inv):
     """evaluate the Alpha / InvAlpha arm of slot k's `match <ModKind>` with tree t"""
-    par = hirq.parent_map(b.hir["body"])
-    slots = _binmod_slot_matches(b)
-    m = slots[k]
-    # the enclosing match on ModKind
-    x = par.get(id(m))
-    while x is not None and not (x.get("e") == "match" and (x.get("sty") or "").lstrip("&") == "asca::parser::ModKind"):
-        x = par.get(id(x))
+    # the match on ModKind inside `if let Some(_) = xs[k]`
+    x = None
+    for n in hirq.walk(b.hir["body"]):
+        if n["e"] != "if":
+            continue
+        c = hirq.strip(n["cond"])
+        if c.get("e") != "letcond":
+            continue
+        init = untry(c["init"])
+        if init.get("e") == "index" and hirq.strip(init["i"]).get("e") == "lit" and hirq.strip(init["i"])["lit"] == k:
+            for mm in hirq.walk(n["then"]):
+                if mm["e"] == "match" and (mm.get("sty") or "").lstrip("&") == "asca::parser::ModKind":
+                    x = mm
+                    break
+            if x is not None:
+                break
     if x is None:
-        raise AnchorMissing("%s: match on ModKind around slot %d not found" % (b.path, k))
+        raise AnchorMissing("%s: match on ModKind of slot %d not found" % (b.path, k))
     alpha_arm = None
     for arm in x["arms"]:
         if any((p.get("path") or "") == MODKIND + "Alpha" for p in hirq.flat_pats(arm["pat"])):
